@@ -861,8 +861,9 @@ theorem loop_spec (pf : Nat) (veto : Nat → Bool) (db : Nat → DbRes) (latest 
 pruner only ever asks the database to prune versions `v` with `v + keepN < latest` — the last
 `keepN` versions before `latest` (and `latest` itself) are never pruned — and never a version a
 prune handler vetoed. -/
-theorem pruner_keeps_last_n (keepN latest dbE : Nat) (veto : Nat → Bool) (db : Nat → DbRes) (p : PSt) :
-    ∀ v ∈ (prune keepN latest dbE veto db p).asked, v + keepN < latest ∧ veto v = false := by
+theorem pruner_keeps_last_n (keepN latest dbE : Nat) (veto : Nat → Bool) (db : Nat → DbRes) (p : PSt)
+    (syncOk : Bool) :
+    ∀ v ∈ (prune keepN latest dbE veto db p syncOk).asked, v + keepN < latest ∧ veto v = false := by
   intro v hv
   unfold prune at hv
   by_cases h0 : latest < keepN
@@ -876,21 +877,30 @@ theorem pruner_keeps_last_n (keepN latest dbE : Nat) (veto : Nat → Bool) (db :
         p1.earliest p1.earliest [] []
       by_cases hle : p1.earliest ≤ latest + 1
       · have := (hs (by omega) (Or.inr rfl) (by simp) (by simp) (by simp)).1
-        split at hv
-        · have := this v hv; exact ⟨by omega, this.2⟩
-        · have := this v hv; exact ⟨by omega, this.2⟩
+        have hv' : v ∈ (loop (latest - keepN) veto db (latest + 1 - p1.earliest) p1.earliest p1.earliest [] []).2.2.1 := by
+          split at hv
+          · exact hv
+          · split at hv <;> exact hv
+        have := this v hv'; exact ⟨by omega, this.2⟩
       · have hz : latest + 1 - p1.earliest = 0 := by omega
         rw [hz] at hv
-        simp [loop] at hv
+        cases syncOk <;> simp [loop] at hv
 
-/-- **last_retained_le_needed.** After a successful call everything the database pruned lies
-strictly below the version the pruner reports as last retained (block history below it may be
-discarded), and after a failed call the reported version has not moved. -/
-theorem pruner_last_retained_sound (keepN latest dbE : Nat) (veto : Nat → Bool) (db : Nat → DbRes) (p : PSt) :
-    let o := prune keepN latest dbE veto db p
+/-- **last_retained_le_needed / syncs before advancing.** After a successful call everything the
+database pruned lies strictly below the version the pruner reports as last retained (block history
+below it may be discarded); after a failed call — a failing `ndb.Prune` or a failing `ndb.Sync` —
+the reported version has not moved; and whenever `Sync` runs, the reported version is still the old
+one: the database is synced BEFORE the retained version advances. -/
+theorem pruner_last_retained_sound (keepN latest dbE : Nat) (veto : Nat → Bool) (db : Nat → DbRes) (p : PSt)
+    (syncOk : Bool) :
+    let o := prune keepN latest dbE veto db p syncOk
+    let old := if p.earliest = 0 then dbE else p.lastRetained
     (o.err = false → ∀ v ∈ o.pruned, v < o.st.lastRetained) ∧
-    (o.err = true → o.st.lastRetained = (if p.earliest = 0 then dbE else p.lastRetained)) ∧
-    (∀ v ∈ o.pruned, v ∈ o.asked) := by
+    (o.err = true → o.st.lastRetained = old) ∧
+    (∀ v ∈ o.pruned, v ∈ o.asked) ∧
+    (∀ r, o.retainedAtSync = some r → r = old) ∧
+    (o.err = false → o.pruned ≠ [] → o.retainedAtSync = some old) ∧
+    (syncOk = false → o.retainedAtSync ≠ none → o.err = true) := by
   simp only
   unfold prune
   by_cases h0 : latest < keepN
@@ -906,14 +916,20 @@ theorem pruner_last_retained_sound (keepN latest dbE : Nat) (veto : Nat → Bool
         p1.earliest p1.earliest [] []
       by_cases hle : p1.earliest ≤ latest + 1
       · obtain ⟨_, hsub, hlt⟩ := hs (by omega) (Or.inr rfl) (by simp) (by simp) (by simp)
-        split
-        · rename_i herr
-          exact ⟨by simp, fun _ => hlr, hsub⟩
-        · rename_i herr
-          refine ⟨fun _ => hlt (by simpa using herr), by simp, hsub⟩
+        by_cases herr : (loop (latest - keepN) veto db (latest + 1 - p1.earliest) p1.earliest p1.earliest [] []).2.2.2 = true
+        · simp only [herr, if_true]
+          exact ⟨by simp, fun _ => hlr, hsub, by simp, by simp, by simp⟩
+        · simp only [herr, if_false, Bool.false_eq_true]
+          cases syncOk with
+          | false =>
+            simp only [Bool.not_false, if_true]
+            exact ⟨by simp, fun _ => hlr, hsub, by simp [hlr], by simp, by simp⟩
+          | true =>
+            simp only [Bool.not_true, Bool.false_eq_true, if_false]
+            exact ⟨fun _ => hlt (by simpa using herr), by simp, hsub, by simp [hlr], by simp [hlr], by simp⟩
       · have hz : latest + 1 - p1.earliest = 0 := by omega
         rw [hz]
-        simp [loop]
+        cases syncOk <;> simp [loop, hlr]
 
 end PrunerThms
 
@@ -948,7 +964,9 @@ example : (∀ x ∈ cexCl 1, x ∉ (Badger.finPlan cexBeforeFinalize 2 (Badger.
 are pruned and 8 is reported as last retained. -/
 example : (Pruner.prune 2 10 1 (fun _ => false) (fun _ => .ok) ⟨0, 0⟩).asked = [1, 2, 3, 4, 5, 6, 7] ∧
     (Pruner.prune 2 10 1 (fun _ => false) (fun _ => .ok) ⟨0, 0⟩).st = ⟨8, 8⟩ ∧
-    (Pruner.prune 2 10 1 (fun v => v == 4) (fun _ => .ok) ⟨0, 0⟩).st = ⟨4, 4⟩ := by
+    (Pruner.prune 2 10 1 (fun v => v == 4) (fun _ => .ok) ⟨0, 0⟩).st = ⟨4, 4⟩ ∧
+    (Pruner.prune 2 10 1 (fun _ => false) (fun _ => .ok) ⟨0, 0⟩ false).st = ⟨8, 1⟩ ∧
+    (Pruner.prune 2 10 1 (fun _ => false) (fun _ => .ok) ⟨0, 0⟩ false).retainedAtSync = some 1 := by
   decide
 
 end NonVacuity
